@@ -35,6 +35,64 @@ def reject_part(v):
     return res.emits
 
 
+def wide_part(v, quick, seed, pid="C07"):
+    """runs of bit fields wider than a TLC integer (32, 40, 48, 64, 72 bits): BitsWide.tla on bit sequences; every emitted case
+    is parsed, serialised again, and serialised after one member was re-assigned (too wide by a digit, -1, zero)"""
+    import random
+    from concurrent.futures import ThreadPoolExecutor
+    from bind import declgen
+
+    def cfg(k):
+        return "SPECIFICATION Spec\nCONSTANTS Part = %d NParts = 4\nINVARIANT Inv_RoundTrip\nINVARIANT Inv_Isolated\nINVARIANT Emit\n" % k
+    with ThreadPoolExecutor(4) as ex:
+        parts = list(ex.map(lambda k: run_tlc("BitsWide", cfg_text=cfg(k), workers=4, heap="3g", timeout=1800), range(4)))
+    res = parts[0]
+    for r in parts[1:]:
+        res.violation = res.violation or r.violation
+        res.generated += r.generated
+        res.distinct += r.distinct
+        res.emits.extend(r.emits)
+    if res.violation:
+        raise common.MachineryFailure("BitsWide violates %s" % res.violation["name"])
+    v.add_tlc(res, "BitsWide: runs of 16..72 bits on bit sequences x byte patterns x one re-assigned member")
+    rnd = random.Random(seed + 31)
+    cases = res.emits if not quick else rnd.sample(res.emits, min(len(res.emits), 6000))
+    toint = lambda bits: int("".join(map(str, bits)) or "0", 2)
+    nomv = {"kind": "none"}
+    n = 0
+    with declgen.Scratch() as sc:
+        for c in cases:
+            prog = {"C0": {"opts": {"endian": "none", "align": 0, "sbl": -1},
+                           "fields": [{"k": "Bits", "name": "f%d" % i, "w": w, "dflt": 0, "mv": nomv} for i, w in enumerate(c["ws"])]}}
+            for gen in (rp.GEN_OFF, None):
+                cls = sc.load(prog, gen).C0
+                n += 1
+                bad = None
+                try:
+                    p = cls.unpack(bytes(c["bs"]))
+                    got = [getattr(p, "f%d" % i) for i in range(len(c["ws"]))]
+                    if got != [toint(m) for m in c["members"]]:
+                        bad = ("C07_WideSlices", "members parsed as %r, specification %r" % (got, [toint(m) for m in c["members"]]))
+                    elif p.pack() != bytes(c["bs"]):
+                        bad = ("C07_WideRoundTrip", "serialised again as %r" % (p.pack(),))
+                    else:
+                        k = c["k"] - 1
+                        newv = toint(c["v"])
+                        for val in ([newv, -1] if c["v"] and all(c["v"]) and len(c["v"]) > c["ws"][k] else [newv]):
+                            setattr(p, "f%d" % k, val)
+                            out = p.pack()
+                            if out != bytes(c["bytes2"]):
+                                bad = ("C07_WideIsolated", "member %d := %r, serialised as %r, specification %r" % (k, val, out, bytes(c["bytes2"])))
+                except Exception as ex:
+                    bad = ("C07_WideSlices", "raised %s: %s" % (type(ex).__name__, str(ex)[:150]))
+                if bad and len(v.violations) < 20:
+                    v.violation(bad[0], "bit fields of widths %r on %r (%s): %s" % (c["ws"], bytes(c["bs"]), "field loop" if gen else "generated code", bad[1]),
+                                {"case": c, "gen": gen})
+            v.count_case(("wide", tuple(c["ws"]), tuple(c["bs"]), c["k"], tuple(c["v"])), nontrivial=len(c["ws"]) >= 2)
+    v.cov["traces_validated_against_impl"] += n
+    v.cov["wide_bit_runs_executed"] = n
+
+
 def reject_history_part(v, emits, seed):
     """the same runs defined ONE AFTER THE OTHER in one module, every class written with one and the same options dictionary
     object (rejected definitions in between): each definition is accepted or rejected on its own widths alone"""
@@ -85,6 +143,7 @@ def run(tier, seed):
         pp.exhaustive_part(v, u, ["Inv_Machine", "Inv_C04_Exact"], gens, OWNED_U, c01=False)
     vp.exhaustive_part(v, "U_C07V", ["Inv_C07_Isolated", "Inv_Pack2", "Inv_C02_Layout"], gens, OWNED_V)
     reject_history_part(v, reject_part(v), seed)
+    wide_part(v, quick, seed)
     pp.random_part(v, seed, 300 if quick else 3000, gens, OWNED_U, "bits", c01=False)
     v.cov["exhaustive"] = True
     v.cov["rule"] = ("unpack: all 128 compositions of 8 bits x all 256 byte values (+ compositions of 16 bits with <=4 members x a "
